@@ -16,6 +16,7 @@ import os
 import select
 import shutil
 import subprocess
+import time
 
 import vlib
 
@@ -41,6 +42,15 @@ BASE_OPTS = ["--memtable-size-bytes", "100000000", "--l0-write-stall-threshold-f
 
 UNIVERSE = [b"", b"a", b"a\x00", b"ab", b"ab\xff", b"abc", b"b", b"b\x00", b"ba", b"\xff", b"\xff\xff",
             b"k1", b"k2", b"k3", b"k4", b"k5", b"k6", b"k7", b"k8", b"k9"]
+
+# the concurrent stage: (name, options, (rounds, batch, small writers, scanners))
+CONC_BASE = ["--l0-write-stall-threshold-files", "100000", "--l0-write-stall-threshold-bytes", "100000000000", "--sst-cache-bytes", "0"]
+CONC_SETS = [
+    ("one-memtable", ["--memtable-size-bytes", "400000000"], (24, 5000, 2, 2)),
+    ("rollovers-under-the-scans", ["--memtable-size-bytes", "1000000"], (24, 5000, 2, 3)),
+    ("big-batches", ["--memtable-size-bytes", "400000000"], (8, 20000, 3, 2)),
+    ("many-small-writers", ["--memtable-size-bytes", "4000000"], (30, 2000, 4, 2)),
+]
 
 # model switches: cf_iter_owns cf_holds_ver cf_cache  (the repaired code, cache off as in BASE_OPTS)
 MODEL_FLAGS = os.environ.get("C07_MODEL_FLAGS", "1 1 0")
@@ -83,8 +93,11 @@ class Session:
         return line.decode() + "\n"
 
     def cmd(self, line):
-        self.p.stdin.write((line + "\n").encode())
-        self.p.stdin.flush()
+        try:
+            self.p.stdin.write((line + "\n").encode())
+            self.p.stdin.flush()
+        except (BrokenPipeError, OSError, ValueError):
+            return ["EOF"]
         outs = []
         while True:
             ln = self.readline(self.timeout)
@@ -206,6 +219,7 @@ class Run:
                                       "install_retiring_read_sst": 0, "rmtrash": 0, "other_cursor": 0},
                       "nonempty_obs": 0, "max_open_cursors": 0, "ls_compared": 0, "trash_seen": 0}
         self.dead = False
+        self.frees_off = False
         self.model = Model(mx_exe)
         self.sess = Session(exe, self.root, opts, prefix, errlog)
         self.events.append(("open-store", self.sess.open_line))
@@ -213,13 +227,60 @@ class Run:
             self.problem("error", what="open failed", line=self.sess.open_line)
             self.dead = True
             return
-        st = self.sess.cmd("state")[0].split()
+        st = self.scmd("state")[0].split()
         self.model.cmd("H %d %s" % (int(st[1]), MODEL_FLAGS))
 
     def problem(self, kind, **kw):
         d = {"kind": kind, "at_event": len(self.events)}
         d.update(kw)
         self.problems.append(d)
+
+    def scmd(self, line):
+        """a command to the real store; the process dying (a signal) or hanging is a failure of the property"""
+        out = self.sess.cmd(line)
+        if out and out[-1] in ("EOF", "HANG") and not self.dead:
+            rc = None
+            try:
+                rc = self.sess.p.wait(timeout=5)
+            except Exception:
+                pass
+            self.dead = True
+            self.problem("read", what="the store process %s during `%s` (exit status %s; negative = killed by that signal, -11 = SIGSEGV)"
+                         % ("hung" if out[-1] == "HANG" else "died", line[:80], rc), open_cursors=sorted(self.cursors),
+                         held_across=dict((cid, sorted(c["since"])) for cid, c in self.cursors.items()))
+        return out
+
+    def check_frees(self, where):
+        """the skip list nodes released so far (skipfree's cfg(blue_verif) hook, counted by the harness) against the
+        model's memtables: a memtable's nodes (its entries and the head node) are released when the store has let go of
+        it AND no cursor opened on it is alive, never earlier"""
+        if self.dead:
+            return
+        want = None
+        for attempt in range(40):
+            out = self.scmd("reg")[0]
+            if not out.startswith("REG "):
+                return
+            got = int(out.split("frees=")[1].split()[0])
+            if want is None:
+                m = self.model.cmd("M")
+                want = 0
+                for tok in m.split()[1:]:
+                    f = tok.split(":")
+                    if f[3] == "1":
+                        want += int(f[4]) + 1
+            if got >= want:
+                break
+            time.sleep(0.025)      # the flush thread drops its Arc<MemTable> just after it reports the flush
+        self.stats["frees_compared"] = self.stats.get("frees_compared", 0) + 1
+        if got > want:
+            self.problem("read", what="%s: skip list nodes were freed while a cursor opened on that memtable is still alive (freed so far %d, "
+                         "the lifetime model allows %d)" % (where, got, want), reg=out, model=m,
+                         held_across=dict((cid, sorted(c["since"])) for cid, c in self.cursors.items()))
+            self.frees_off = True
+        elif got < want:
+            self.problem("corr", what="%s: skip list nodes not freed although no holder is left (freed %d, model %d)" % (where, got, want), reg=out, model=m)
+            self.frees_off = True
 
     def fid(self, name):
         if name not in self.ids:
@@ -234,7 +295,7 @@ class Run:
                     c["since"].add(k)
 
     def dump(self):
-        out = self.sess.cmd("dump")
+        out = self.scmd("dump")
         if out[-1] in ("HANG", "EOF"):
             self.problem("error", what="store stopped answering during dump: " + out[-1])
             self.dead = True
@@ -264,7 +325,7 @@ class Run:
         return "/".join(";".join(self.file_str(n) for n in lv) for lv in levels)
 
     def compare_ls(self, where):
-        out = self.sess.cmd("ls")[0]
+        out = self.scmd("ls")[0]
         if not out.startswith("LS "):
             self.problem("error", what="ls failed", out=out)
             return
@@ -292,7 +353,7 @@ class Run:
             line = ("put %s %s" % (hx(k), hx(v))) if v is not None else ("del %s" % hx(k))
         else:
             line = "batch " + ",".join("%s=%s" % (hx(k), "~" if v is None else hx(v)) for k, v in raw)
-        out = self.sess.cmd(line)[0]
+        out = self.scmd(line)[0]
         self.events.append((line, out))
         if not out.endswith(" ok"):
             self.problem("error", what="write returned an error or panicked", op=line, out=out)
@@ -309,7 +370,7 @@ class Run:
     def flush(self):
         if not self.mem_nonempty:
             return
-        out = self.sess.cmd("flush")[0]
+        out = self.scmd("flush")[0]
         self.events.append(("flush", out))
         if not out.startswith("FLUSH"):
             self.problem("error", what="flush did not complete", out=out, threads=self.sess.threads)
@@ -334,9 +395,11 @@ class Run:
         for c in self.cursors.values():
             c["mem_live"] = False
         self.compare_ls("flush")
+        if not self.frees_off:
+            self.check_frees("after the flush that retires a memtable")
 
     def compact(self):
-        out = self.sess.cmd("compact")[0]
+        out = self.scmd("compact")[0]
         self.events.append(("compact", out))
         t = out.split(" ")
         if t[0] != "COMPACT":
@@ -362,7 +425,7 @@ class Run:
         return True
 
     def rmtrash(self):
-        out = self.sess.cmd("rmtrash")[0]
+        out = self.scmd("rmtrash")[0]
         self.events.append(("rmtrash", out))
         self.model.cmd("U *")
         self.stats["rmtrash"] += 1
@@ -371,9 +434,9 @@ class Run:
 
     def verify(self):
         """the real verifier: which trash files it unlinks is its business (C08); the model is told"""
-        before = self.sess.cmd("ls")[0]
-        out = self.sess.cmd("verify")[0]
-        after = self.sess.cmd("ls")[0]
+        before = self.scmd("ls")[0]
+        out = self.scmd("verify")[0]
+        after = self.scmd("ls")[0]
         self.events.append(("verify", out))
         if not before.startswith("LS ") or not after.startswith("LS "):
             self.problem("error", what="ls failed around verify", out=[before, after])
@@ -394,7 +457,7 @@ class Run:
     def open(self, cid, lo, hi):
         if cid in self.cursors:
             return
-        out = self.sess.cmd("open %d %s %s" % (cid, lo, hi))[0]
+        out = self.scmd("open %d %s %s" % (cid, lo, hi))[0]
         self.events.append(("open %d %s %s" % (cid, lo, hi), out))
         m = self.model.cmd("O %d %s %s" % (cid, lo, hi))
         if not out.startswith("OPENED") or "UAF" in out:
@@ -410,12 +473,14 @@ class Run:
         self.stats["open"] += 1
         self.stats["max_open_cursors"] = max(self.stats["max_open_cursors"], len(self.cursors))
         self.compare_ls("open")
+        if not self.frees_off:
+            self.check_frees("after opening a scan")
 
     def step(self, cid, prog):
         c = self.cursors.get(cid)
         if c is None or c["dead"]:
             return
-        out = self.sess.cmd("step %d %s" % (cid, ",".join(prog)))[0]
+        out = self.scmd("step %d %s" % (cid, ",".join(prog)))[0]
         self.events.append(("step %d %s" % (cid, ",".join(prog)), out))
         m = self.model.cmd("S %d %s" % (cid, ",".join(prog)))
         toks = out.split(" ")
@@ -471,7 +536,7 @@ class Run:
         c = self.cursors.pop(cid, None)
         if c is None:
             return
-        out = self.sess.cmd("close %d" % cid)[0]
+        out = self.scmd("close %d" % cid)[0]
         self.events.append(("close %d" % cid, out))
         m = self.model.cmd("X %d" % cid)
         if out != "CLOSED 1":
@@ -481,13 +546,15 @@ class Run:
         self.stats["close"] += 1
         self.note("other_cursor")
         self.compare_ls("close")
+        if not self.frees_off:
+            self.check_frees("after dropping a cursor")
 
     def finish(self):
         reg = None
         rc = None
         try:
             if not self.dead:
-                reg = self.sess.cmd("reg")[0]
+                reg = self.scmd("reg")[0]
             rc = self.sess.close()
         except Exception:
             pass
@@ -533,6 +600,51 @@ def run_history(exe, mx_exe, opts, ops, tag, prefix=None, errlog=None):
         run.finish()
     return run
 
+
+
+# ---------------------------------------------------------------- the concurrent stage
+def run_conc(args):
+    """writers (big batches with their own prefix and marker, tiny puts) against scanners that open a cursor on the batch
+    about to complete and walk it three times: every walk must show the batch entirely or not at all, the three walks of
+    one cursor must be identical, and a batch whose write() had returned before the scan was opened must be there"""
+    exe, name, opts, params, tag = args
+    root = fresh_root(tag)
+    res = {"name": name, "options": opts, "params": list(params), "line": "", "scans": 0, "bad": 0, "what": None}
+    sess = Session(exe, root, CONC_BASE + opts)
+    try:
+        if sess.open_line != "OPEN ok":
+            res["what"] = "open failed: " + sess.open_line
+            res["bad"] = 1
+            return res
+        out = sess.cmd("conc %d %d %d %d" % tuple(params))[-1]
+        res["line"] = out
+        if not out.startswith("CONC "):
+            res["what"] = "the store process died, hung or panicked in the concurrent stage: " + out
+            res["bad"] = 1
+            return res
+        f = dict(t.split("=") for t in out.split()[1:] if "=" in t)
+        res["scans"] = int(f["scans"])
+        res["bad"] = int(f["unstable"]) + int(f["partial"]) + int(f["missing"]) + int(f["errors"])
+        if res["bad"]:
+            res["what"] = ("a cursor showed part of a batch, or its walks differed, or a completed batch was missing, or a call failed "
+                           "(unstable=%s partial=%s missing=%s errors=%s; batch:order:sizes of the three walks: %s)"
+                           % (f["unstable"], f["partial"], f["missing"], f["errors"], " ".join(t for t in out.split()[1:] if "=" not in t)))
+        return res
+    finally:
+        try:
+            sess.close()
+        except Exception:
+            pass
+        shutil.rmtree(root, ignore_errors=True)
+
+
+def conc_jobs(exe, rng, reps):
+    jobs = []
+    for r in range(reps):
+        for name, opts, (rounds, batch, smalls, scanners) in CONC_SETS:
+            params = (rounds, max(500, batch + rng.below(2001) - 1000), smalls, scanners)
+            jobs.append((exe, name, opts, params, "c07conc%d" % len(jobs)))
+    return jobs
 
 # ---------------------------------------------------------------- generation
 def gen_bound(rng, universe, lo):
@@ -721,6 +833,21 @@ def run(chk):
                 if p["kind"] in ("read", "error"):
                     vg["errors"] += 1
 
+    # the concurrent stage (two sessions at a time: each one runs 5 to 8 threads)
+    import multiprocessing
+    cjobs = conc_jobs(exe, rng.fork(), 3 if quick else 25)
+    with multiprocessing.Pool(2) as pool:
+        cres = pool.map(run_conc, cjobs, chunksize=1)
+    conc = {"sessions": len(cres), "scans": sum(c["scans"] for c in cres), "sessions_with_failures": sum(1 for c in cres if c["bad"]),
+            "sets": [n for n, _, _ in CONC_SETS],
+            "rule": "per session one thread writes R batches of B keys (own key prefix and marker value per batch), S threads issue single puts all the time, C threads open a scan cursor on the batch about to complete (every 8th time: the one completed last) and walk it three times (backward/forward/backward or forward/backward/forward); oracle: every walk shows the batch entirely or not at all, the three walks of one cursor are identical, a batch whose write() had returned before the scan was opened is there"}
+    creported = 0
+    for c in cres:
+        if c["bad"] and creported < 2:
+            chk.violation("c07_conc_%d.json" % creported, {"kind": "property", "what": c["what"], "conc": {"name": c["name"], "options": c["options"], "params": c["params"]},
+                                                           "line": c["line"], "replay_cmd": "./bin/check C07 --replay <this file>  (re-runs the stage up to 10 times)"})
+            creported += 1
+
     total = {}
     shapes = set()
     n_problems = 0
@@ -736,7 +863,7 @@ def run(chk):
         "samples": [ops_to_json(results[-1][2])[:14], ops_to_json(results[ncorpus][2])[:14] if len(results) > ncorpus else []],
         "input_distribution": total, "histories": len(results), "corpus_cases": ncorpus,
         "traces_validated_against_impl": len(results),
-        "problems_seen": n_problems, "valgrind": vg, "model_flags(iter_owns holds_ver cache)": MODEL_FLAGS,
+        "problems_seen": n_problems, "valgrind": vg, "concurrent_stage": conc, "model_flags(iter_owns holds_ver cache)": MODEL_FLAGS,
         "disagreements_impl_vs_model": sum(1 for _, _, _, r in results for p in r.problems if p["kind"] == "corr"),
         "disagreements_impl_vs_spec": sum(1 for _, _, _, r in results for p in r.problems if p["kind"] in ("read", "error")),
         "trusted_base": [
@@ -747,7 +874,7 @@ def run(chk):
             "area Cursor (C11) for the combinators, C10 for SstCursor = the table of its entries, C17 for the skiplist itself",
         ],
     })
-    chk.assumptions = ["events are atomic: a write batch becomes visible all at once (C06), a cursor call is not interleaved with another thread's event",
+    chk.assumptions = ["events are atomic in the model: a write batch becomes visible all at once, a cursor call is not interleaved with another thread's event; the contents of a cursor are the entries with sequence number <= the read timestamp taken when the scan is opened. That the read timestamp never reaches a sequence number whose insertion is incomplete is the visible_seq_no discipline proved in C06's Conc model; here it is VALIDATED on the real store by the concurrent stage (coverage.concurrent_stage), not re-proved",
                        "an SstCursor behaves as the reference cursor over the file's entries (C10); the combinators as their models (C11)",
                        "storage errors other than a missing file, and the open-file limit of the file manager, are outside the model"]
 
@@ -771,6 +898,18 @@ def run(chk):
 def replay(path):
     obj = json.load(open(path))
     print(json.dumps({k: obj[k] for k in obj if k != "history"}, indent=1)[:4000])
+    if "conc" in obj:
+        chk = vlib.Check("C07", "quick", 1)
+        exe, mx = build(chk)
+        c = obj["conc"]
+        for i in range(10):
+            r = run_conc((exe, c["name"], c["options"], c["params"], "c07rc%d" % i))
+            print("attempt %d: %s" % (i, r["line"]))
+            if r["bad"]:
+                print("fails now:", r["what"])
+                return 1
+        print("problems now: []")
+        return 0
     if "history" not in obj:
         return 1
     chk = vlib.Check("C07", "quick", 1)
